@@ -273,7 +273,11 @@ class Driver:
                             break
                         if line == 'drverror':
                             raise RuntimeError('driver protocol error: ' + self.stderr_text()[-2000:])
-                        raise RuntimeError('protocol out of step: got %r, expected begin %s' % (line, c.id))
+                        # the case in flight disturbed the protocol itself (e.g. the library consumed the command stream)
+                        res.status = 'crash'
+                        res.info = 'protocol out of step after this case: got %r' % line[:200]
+                        restart_why = 'crash'
+                        break
                     if line == 'end ' + c.id:
                         break
                     if line == 'drverror':
